@@ -18,12 +18,12 @@ Step(a, n, p, v) == hist' = Append(hist, [a |-> a, n |-> ToString(n), p |-> ToSt
 
 \* asynchronous grain: the message a step is about (identified by the REQUEST's kind, endpoints and
 \* round, plus whether the step handles the request or its response) and the requests it puts on the wire
-MKind(m) == IF m.kind \in {"rvq", "rvr"} THEN "rv" ELSE "ae"
+MKind(m) == IF m.kind \in {"rvq", "rvr"} THEN "rv" ELSE IF m.kind \in {"isq", "isr"} THEN "is" ELSE "ae"
 MsgId(m) ==
-  LET q == IF m.kind \in {"rvq", "aeq"} THEN m ELSE m.req IN
-  [kind |-> MKind(m), phase |-> IF m.kind \in {"rvq", "aeq"} THEN "req" ELSE "resp", from |-> ToString(q.from), to |-> ToString(q.to),
+  LET q == IF m.kind \in {"rvq", "aeq", "isq"} THEN m ELSE m.req IN
+  [kind |-> MKind(m), phase |-> IF m.kind \in {"rvq", "aeq", "isq"} THEN "req" ELSE "resp", from |-> ToString(q.from), to |-> ToString(q.to),
    round |-> m.round, pre |-> IF MKind(m) = "rv" THEN q.pre ELSE FALSE, term |-> q.term]
-Spawned == {MsgId(x) : x \in {y \in net' \ net : y.kind \in {"rvq", "aeq"}}}
+Spawned == {MsgId(x) : x \in {y \in net' \ net : y.kind \in {"rvq", "aeq", "isq"}}}
 StepA(a, n) == hist' = Append(hist, [a |-> a, n |-> ToString(n), p |-> ToString(n), v |-> "",
                                      post |-> [x \in Node |-> Proj(ns'[x])], spawn |-> SetToSeq(Spawned)])
 StepM(a, m) == hist' = Append(hist, [a |-> a, n |-> MsgId(m).from, p |-> MsgId(m).to, v |-> "",
@@ -52,6 +52,8 @@ GNext ==
   \/ \E m \in net : RVReply(m) /\ StepM("RVReply", m)
   \/ \E m \in net : AEHandle(m) /\ StepM("AEHandle", m)
   \/ \E m \in net : AEReply(m) /\ StepM("AEReply", m)
+  \/ \E m \in net : ISHandle(m) /\ StepM("ISHandle", m)
+  \/ \E m \in net : ISReply(m) /\ StepM("ISReply", m)
   \/ \E m \in net : Lose(m) /\ StepM("Lose", m)
 GSpec == GInit /\ [][GNext]_<<vars, hist>>
 
